@@ -24,7 +24,13 @@ def check_split_args_quotes(ctx, u, R):
     # that is not inter-argument space arrives while the scanner is between arguments
     body = body_of(sa_)
     loops = [x for x in walk(body) if x.get('kind') == 'ForStmt']
-    idx = next((v for v in walk(for_parts(loops[0])[0]) if v.get('kind') == 'VarDecl'), None) if loops else None
+    idx = None
+    for lp_ in loops:
+        ini_ = for_parts(lp_)[0]
+        if ini_ is not None and ini_.get('kind'):
+            idx = next((v for v in walk(ini_) if v is not None and v.get('kind') == 'VarDecl'), None)
+            if idx is not None:
+                break
     back = []
     if idx is not None:
         for x in walk(body):
